@@ -48,9 +48,10 @@ def LimitSpec (m : Meta) (q : Query) (pl : Plan) : Prop :=
 /-- T15.3: everything that is not "allowed operators on order/group columns only" is rejected with
 PlanningException, and nothing else is ever raised -/
 def RejectSpec (m : Meta) (q : Query) : Prop :=
-  planTS m q ≠ .crash ∧
+  ((∀ w, q.whereC = some w → w.isOperation = true) → planTS m q ≠ .crash) ∧
   ((q.orderBy = true ∨ q.groupBy = true ∨ q.having = true ∨ q.offset = true ∨
-    (∃ w, q.whereC = some w ∧ (opsOk w = false ∨ colsOk m.nG w = false))) → planTS m q = .planning)
+    (∃ w, q.whereC = some w ∧ (opsOk w = false ∨ colsOk m.nG w = false ∨ andOk w = false))) →
+      planTS m q = .planning)
 
 /-- the full statement of the property about the model (FALSE on the pinned tree: see the witnesses) -/
 def C15_full : Prop :=
@@ -224,17 +225,12 @@ theorem C15_otf_eq (m : Meta) (q : Query) (c : Int) (hp : plain q)
     have := plan_tc m q (.eq c) w hq hp hd
     rw [this] at h; injection h with h; subst h; rfl
 
-/-- the user's LIMIT becomes the LimitOffsetStep after the join — unless it is `LIMIT 0` — and is never
+/-- the user's LIMIT (also `LIMIT 0`, since df1c6e2) becomes the LimitOffsetStep after the join and is never
 pushed into a fetch select (their only limit is the window) -/
-theorem C15_limit_partial (m : Meta) (q : Query) (tc : Option TC) (hp : plain q)
-    (hd : Dom m.nG tc q.whereC = true) (hl : q.limit ≠ some 0)
+theorem C15_limit (m : Meta) (q : Query) (tc : Option TC) (hp : plain q)
+    (hd : Dom m.nG tc q.whereC = true)
     (pl : Plan) (h : planTS m q = .ok pl) : LimitSpec m q pl := by
-  have hlim : limitOf q.limit = q.limit := by
-    cases hq : q.limit with
-    | none => rfl
-    | some n => cases n with
-      | zero => exact absurd hq hl
-      | succ k => rfl
+  have hlim : limitOf q.limit = q.limit := rfl
   cases tc with
   | some tc =>
     cases hq : q.whereC with
@@ -277,26 +273,28 @@ theorem C15_decision (m : Meta) (q : Query) :
     cases validO m.nG q.whereC <;> cases ftOf q.whereC <;> simp
 
 /-- on the fragment where `validate_ts_where_condition` sees every position (`visible`), a WHERE with a
-disallowed operator or a column other than the order / group columns is rejected with PlanningException -/
+disallowed operator, a column other than the order / group columns, or an AND operand that is not a condition
+is rejected with PlanningException -/
 theorem C15_reject_where_partial (m : Meta) (q : Query) (w : W) (hq : q.whereC = some w)
     (hop : w.isOperation = true) (hvis : visible w = true)
-    (hbad : opsOk w = false ∨ colsOk m.nG w = false) : planTS m q = .planning := by
+    (hbad : opsOk w = false ∨ colsOk m.nG w = false ∨ andOk w = false) : planTS m q = .planning := by
   have hs := validate_spec m.nG w hvis
   rw [identOk_op m.nG hop, Bool.and_true] at hs
   have : validO m.nG q.whereC = false := by
     rw [hq]; simp only [validO]; rw [hs]
-    rcases hbad with h | h <;> simp [h]
+    rcases hbad with h | h | h <;> simp [h]
   exact ((C15_decision m q).1).2 (Or.inr (Or.inr (Or.inr (Or.inr (Or.inl this)))))
 
 /-- conversely, on that fragment an all-allowed WHERE passes the validation -/
 theorem C15_validate_iff (nG : Nat) (w : W) (hop : w.isOperation = true) (hvis : visible w = true) :
-    validate nG w = (opsOk w && colsOk nG w) := by
+    validate nG w = (opsOk w && colsOk nG w && andOk w) := by
   have hs := validate_spec nG w hvis
   rwa [identOk_op nG hop, Bool.and_true] at hs
 
-/-- nothing but PlanningException: when every operand of AND is an operation, the model never crashes -/
-theorem C15_no_crash_partial (m : Meta) (q : Query)
-    (h : ∀ w, q.whereC = some w → w.isOperation = true ∧ andOperandsOps w = true) :
+/-- nothing but PlanningException (since 8068254): for every WHERE the parser can produce (an Operation or
+none) the model never crashes -/
+theorem C15_no_crash (m : Meta) (q : Query)
+    (h : ∀ w, q.whereC = some w → w.isOperation = true) :
     planTS m q ≠ .crash := by
   intro hc
   obtain ⟨_, hv, hft⟩ := ((C15_decision m q).2).1 hc
@@ -304,8 +302,7 @@ theorem C15_no_crash_partial (m : Meta) (q : Query)
   | none => rw [hq] at hft; simp [ftOf] at hft
   | some w =>
     rw [hq] at hft hv
-    obtain ⟨h1, h2⟩ := h w hq
-    exact findTF_no_crash m.nG w h1 hv h2 hft
+    exact findTF_no_crash m.nG w (h w hq) hv hft
 
 /-! ## witnesses: the model exhibits the known defects (each reproduced on the real code by the check) -/
 
@@ -315,13 +312,9 @@ theorem C15_witness_1 :
       ¬ OtfSpec { whereC := some (TC.eq 5).toW } (some (.eq 5)) pl :=
   ⟨_, rfl, by unfold OtfSpec; decide⟩
 
-/-- KF-C15-2: `LIMIT 0` — no LimitOffsetStep is planned -/
-theorem C15_witness_2 :
-    ¬ (∀ pl, planTS ⟨1, 3⟩ { whereC := some (TC.gt 5).toW, limit := some 0 } = .ok pl →
-        LimitSpec ⟨1, 3⟩ { whereC := some (TC.gt 5).toW, limit := some 0 } pl) := by
-  intro h
-  have := (h _ rfl).1
-  exact absurd this (by decide)
+/-- KF-C15-2 (fixed by df1c6e2): `LIMIT 0` is planned as `LimitOffsetStep(limit=0)` -/
+example : ∃ pl, planTS ⟨1, 3⟩ { whereC := some (TC.gt 5).toW, limit := some 0 } = .ok pl ∧
+    pl.limitStep = some 0 := ⟨_, rfl, rfl⟩
 
 /-- KF-C15-3: a foreign column inside a non-Operation node (`ta.g IN (ta.x, 1)`, CAST, CASE, sub-select) is
 not rejected -/
@@ -335,10 +328,10 @@ theorem C15_witness_4 :
     let w := W.btw (.ident (.grp 0)) (.const 1) (.bin (.bad 0) (.ident .other) (.const 1))
     opsOk w = false ∧ colsOk 1 w = false ∧ planTS ⟨1, 3⟩ { whereC := some w } ≠ .planning := by decide
 
-/-- KF-C15-4: `WHERE ta.g = 1 AND ta.g` — AttributeError instead of PlanningException -/
-theorem C15_witness_5 :
+/-- KF-C15-4 (fixed by 8068254): `WHERE ta.g = 1 AND ta.g` is rejected with PlanningException -/
+example :
     planTS ⟨1, 3⟩ { whereC := some (.bin .and (.bin .eq (.ident (.grp 0)) (.const 1)) (.ident (.grp 0))) }
-      = .crash := by decide
+      = .planning := by decide
 
 /-- KF-C15-5 (outside `Dom`): order column on the right, `5 < ta.t` — no window select is produced although
 the condition has the lower bound 5 -/
